@@ -355,3 +355,47 @@ def k1_find_missing(res, tier):
     summarize_paths(res, e, results, lambda r: r.info if isinstance(r.info, dict) else None, key_prefix='C17.K1:', unwind_ok=False)
     for fd in res.findings:
         fd.replay = F10_REPLAY
+
+
+@obligation('C17.K2.full_import_path', 'C17', programs=('vm',))
+def k2_full_path(res, tier):
+    """Vm::full_import_path (the key of the module cache) for 1..3 path segments with arbitrary contents: the key is the segments
+    joined by '/', the package segment included, so that modules of different packages or directories never share a cache entry"""
+    from .vmabs import AbsStr, string_content, str_concat, lit, content_of, StrS, EMPTY
+    P = get_program('vm')
+    e = Engine(P, loop_bound=6, timeout_s=120, max_depth=40)
+    W = VmWorld(e, P)
+    W.havoc_objects(e)
+    f = P.lookup('vm::Vm::full_import_path')
+    res.bounds = {'segments': '1..3, arbitrary contents'}
+    res.assumptions = ['string concatenation is uninterpreted (associative law not needed: the expected key is built in the same left-to-right order)']
+
+    def m_push_char(e_, a, c):
+        cell = a[0].cell
+        cur = cell.get(e_)
+        ch = conc(a[1])
+        nxt = lit(chr(ch)) if ch is not None else z3.Const(e_.fresh_name('char'), StrS)
+        cell.set(e_, AbsStr(nxt if cur.s.eq(EMPTY) else str_concat(cur.s, nxt)))
+        return UNIT
+    e.model(r'^(std::string::|alloc::string::)?String::push$', m_push_char)
+
+    def path(e):
+        st = W.fresh_state(e)
+        nv = z3.BitVec('n_segments', 64)
+        e.add_constraint(z3.And(z3.UGE(nv, 1), z3.ULE(nv, 3)))
+        n = e.concretize(nv, [1, 2, 3])
+        segs = [AbsObj(z3.BitVec(f'seg{i}', 64), 'LyStr') for i in range(n)]
+        seq = ConcSeq('LyStr', [Cell(s) for s in segs])
+        r = e.call(f, [Ref(st.vm_cell), SliceRef(seq, bv(0, 64), bv(n, 64))])
+        want = None
+        for i, s in enumerate(segs):
+            c = string_content(e, s)
+            want = c if want is None else str_concat(str_concat(want, lit('/')), c)
+        got = string_content(e, object_of(e, r))
+        e.check(got == want, 'full_import_path: the cache key is every segment of the path, the package included, joined by "/"', {'segments': n})
+        return {'segments': n}
+    results = e.explore(path)
+    for r in results:
+        if r.kind in ('panic', 'oob', 'unreachable', 'ub', 'diverge', 'depth'):
+            res.fail(f'C17.K2:full_import_path:{r.kind}', f'full_import_path: path ends in {r.kind}: {str(r.info)[:200]}', {'path': str(r.info)})
+    summarize_paths(res, e, results, lambda r: r.info if isinstance(r.info, dict) else None, key_prefix='C17.K2:', unwind_ok=False)
